@@ -263,24 +263,73 @@ def _sanitiser(ctx) -> None:
     ctx.ob("a.sanitiser", f, "steps", not problems, "kept alphabet [a-z0-9_], + quantifier, 'c' prefix, '_' suffixes", f.node,
            message="; ".join(problems))
     # reserved set is built from the public callables / properties of Vector and Table, lower-cased
+    _reserved_source(ctx)
+
+
+def _reserved_source(ctx) -> None:
+    """naming._get_reserved_names on its symx event log: the set it caches / returns receives NAME.lower() for exactly the NAMEs of
+    dir(Vector) and dir(Table) that do not start with '_' and whose class attribute is callable or a property."""
+    from ..sites2 import interp_of, strip_seq
+    from ..symx import NONE as SNONE
+    from ..symx import const, flatten_conds, show, show_conds, subterms
+    prog = ctx.prog
     g = prog.func("naming._get_reserved_names")
-    free = {}
-    for n in walk_no_nested(g.node):
-        if isinstance(n, ast.For) and isinstance(n.target, ast.Name):
-            if short(n.iter) == "(Vector, Table)":
-                free[n.target.id] = "CLS"
-            elif isinstance(n.iter, ast.Call) and short(n.iter.func) == "dir":
-                free[n.target.id] = "NAME"
-    for n in walk_no_nested(g.node):
-        if isinstance(n, ast.Assign) and isinstance(n.value, ast.Call) and short(n.value.func) == "getattr" and isinstance(n.targets[0], ast.Name):
-            free[n.targets[0].id] = "ATTR"
-        if isinstance(n, ast.Call) and isinstance(n.func, ast.Attribute) and n.func.attr == "add" and isinstance(n.func.value, ast.Name):
-            free[n.func.value.id] = "SET"
-    t = cshort(g.node, free, 4000).replace('"', "'")
-    ok = "for CLS in (Vector, Table)" in t and "for NAME in dir(CLS)" in t and "NAME.startswith('_')" in t \
-        and "callable(ATTR) or isinstance(ATTR, property)" in t and "SET.add(NAME.lower())" in t
-    ctx.ob("a.sanitiser", g, "reserved-source", ok, "reserved = public callables/properties of Vector and Table", g.node,
-           message="_get_reserved_names no longer collects every public callable/property of Vector and Table")
+    it = interp_of(prog, g)
+    problems = []
+    rets = [e for e in it.events if e.kind == "return" and e.depth == 0]
+    stores = {e.term: e.value for e in it.events if e.kind == "store" and e.term[0] == "attr"}
+    sets = set()
+    for e in rets:
+        t = stores.get(e.term, e.term)
+        t = strip_seq(it, t)
+        if t[0] == "obj":
+            sets.add(t)
+        elif e.term not in stores:
+            problems.append(f"returns `{show(e.term, it)[:40]}`, not the collected set")
+    if len(sets) != 1:
+        problems.append("the returned set of reserved names is not one collected set")
+    else:
+        S = next(iter(sets))
+        adds = []
+        for e in it.events:
+            if e.kind == "call" and e.term[1][0] == "attr" and e.term[1][1] == S:
+                if e.term[1][2] == "add" and len(e.term[2]) == 1:
+                    adds.append(e)
+                else:
+                    problems.append(f"`{show(e.term, it)[:50]}` changes the reserved set other than by add(name)")
+            elif e.kind == "elem" and e.term == S:
+                adds.append(e)
+        if it.objs[S[1]].init:
+            problems.append("the reserved set starts non-empty")
+        seen = []
+        for e in adds:
+            v = e.value if e.kind == "elem" else e.term[2][0]
+            src = None
+            for L in e.loops:
+                lp = it.loops[L]
+                if lp.iter is not None and lp.iter[0] == "call" and lp.iter[1] == ("name", "dir") and len(lp.iter[2]) == 1:
+                    src = (L, lp.iter, lp.iter[2][0])
+            if src is None:
+                problems.append(f"`{show(v, it)[:40]}` is added outside a loop over dir(<class>)")
+                continue
+            L, d, cls = src
+            x = ("elem", d, L)
+            if v != ("call", ("attr", x, "lower"), (), ()):
+                problems.append(f"`{show(v, it)[:40]}` is added, expected NAME.lower()")
+            attr = ("call", ("name", "getattr"), (cls, x, SNONE), ())
+            c1 = ("call", ("name", "callable"), (attr,), ())
+            c2 = ("call", ("name", "isinstance"), (attr, ("name", "property")), ())
+            want = {(("call", ("attr", x, "startswith"), (const("_"),), ()), False)}
+            got = {(t, pol) for t, pol in flatten_conds(e.conds) if any(y == x for y in subterms(t))}
+            ors = {c for c in got if c[1] and c[0][0] == "bool" and c[0][1] == "or" and set(c[0][2]) == {c1, c2}}
+            if got - ors != want or len(ors) != 1:
+                problems.append(f"names of {show(cls)} are added under `{show_conds(sorted(got, key=str), it)[:120]}`, expected: not "
+                                f"NAME.startswith('_') and (callable(attr) or isinstance(attr, property))")
+            seen.append(cls)
+        if sorted(seen) != [("name", "Table"), ("name", "Vector")]:
+            problems.append(f"names are collected from {[show(c) for c in seen]}, expected Vector and Table (once each)")
+    ctx.ob("a.sanitiser", g, "reserved-source", not problems, "reserved = public callables/properties of Vector and Table", g.node,
+           message="_get_reserved_names no longer collects every public callable/property of Vector and Table: " + "; ".join(problems[:2]))
 
 
 # --------------------------------------------------------------------------------------------- b
@@ -501,46 +550,73 @@ def _is_map_lookup(node) -> bool:
     return False
 
 
+def _unlooked_classes(it, e, SELF, exempt) -> Optional[List[str]]:
+    """classes of paths to event e on which the accessor map was not consulted (and that are not exempt); None: too many classes"""
+    from ..symx import dnf, show_conds, subterms
+    MAP = ("call", ("attr", SELF, "_current_column_map"), (), ())
+
+    def looked(t) -> bool:
+        return any(x == MAP for x in subterms(t))
+    classes = dnf(e.conds)
+    if classes is None:
+        return None
+    out = []
+    for cl in classes:
+        if any(looked(t) for t, pol in cl) or any(exempt(t, pol) for t, pol in cl):
+            continue
+        out.append(show_conds(sorted(cl, key=str), it)[:200])
+    return out
+
+
 def _lookup(ctx) -> None:
+    """Which classes of paths reach the generic fallback / the rejection: each must carry a condition on the result of a lookup in
+    the map obtained from _current_column_map() - on the symx event log, private helpers in line."""
+    from ..sites2 import interp_of
+    from ..symx import NONE as SNONE
+    from ..symx import flatten_conds, show, subterms
     prog = ctx.prog
-    # __getattr__: paths entry -> fallback (`super().__getattribute__`)
+    # __getattr__: the generic fallback (`super().__getattribute__`)
     f = prog.func("table.Table.__getattr__")
-    _MAP_VARS.clear()
-    _MAP_VARS.update(_map_vars(f))
-    cfg = cfg_of(f)
-    fallback = [n for n in cfg.stmt_nodes() if "__getattribute__" in n.text()]
+    it = interp_of(prog, f)
+    S = ("param", f.params[0])
+    fallback = [e for e in it.events if e.kind == "call" and e.term[1][0] == "attr" and e.term[1][2] == "__getattribute__"
+                and e.term[1][1] == ("call", ("name", "super"), (), ())]
     if not fallback:
         raise AnalysisError("Table.__getattr__: fallback to super().__getattribute__ not found")
-    path = cfg.path_avoiding(cfg.entry, fallback, _is_map_lookup)
-    if path is not None:
-        # confirm with correlated branch outcomes (a path that needs `x is not None` and, after `y = x`, `y is None` is infeasible)
-        path = feasible_path(cfg, cfg.entry, fallback, _is_map_lookup)
-    ctx.ob("e.lookup-reached", f, "getattr", path is None, "every path to the generic fallback consults the accessor map", fallback[0].ast,
+    bad = []
+    for e in fallback:
+        r = _unlooked_classes(it, e, S, lambda t, pol: False)
+        if r is None:
+            raise AnalysisError("Table.__getattr__: path classes of the fallback too many to enumerate")
+        bad += r
+    ctx.ob("e.lookup-reached", f, "getattr", not bad, "every path to the generic fallback consults the accessor map", fallback[0].node,
            message="an advertised accessor can fail to resolve: a path reaches the generic attribute fallback without looking the name up "
-                   "in the accessor map: " + (cfg.fmt_path([p for p in path if p.kind == "test" or p is path[-1]][-5:]) if path else ""),
-           witness=cfg.fmt_path(path[-6:]) if path else "")
-    # __setattr__: paths to the final "Cannot set attribute" raise
+                   "in the accessor map: when " + "; or when ".join(bad[:2]), witness="; ".join(bad[:2]))
+    # __setattr__: every AttributeError is about an indexed accessor, precedes initialisation, or follows a lookup
     f = prog.func("table.Table.__setattr__")
-    _MAP_VARS.clear()
-    _MAP_VARS.update(_map_vars(f))
-    cfg = cfg_of(f)
-    final = [n for n in cfg.stmt_nodes() if isinstance(n.ast, ast.Raise) and "Cannot set attribute" in short(n.ast, 200)]
-    if not final:
-        raise AnalysisError("Table.__setattr__: final rejection not found")
+    it = interp_of(prog, f)
+    S, A = ("param", f.params[0]), ("param", f.params[1])
+    cmap = ("attr", S, "_column_map")
+    parsed = ("call", ("name", "_parse_indexed_attr"), (A,), ())
 
-    def blocked(n):
-        return _is_map_lookup(n) or (n.kind == "test" and short(n.ast) == "self._column_map is not None")
-    # paths that skip the lookup only because the table is not initialised yet are fine: block on the init test's F edge
-    path = cfg.path_avoiding(cfg.entry, final, _is_map_lookup,
-                             edge_ok=lambda a, b, lab: not (a.kind == "test" and short(a.ast) == "self._column_map is not None" and lab == "F"))
-    if path is not None:
-        path = feasible_path(cfg, cfg.entry, final, _is_map_lookup,
-                             edge_ok=lambda a, b, lab: not (a.kind == "test" and short(a.ast) == "self._column_map is not None" and lab == "F"))
-    ctx.ob("e.lookup-reached", f, "setattr", path is None, "column assignment consults the accessor map before rejecting", final[0].ast,
-           message="t.<accessor> = value can be rejected without looking the accessor up: " + (cfg.fmt_path(path[-5:]) if path else ""))
+    def exempt(t, pol) -> bool:
+        if t == ("cmp", "Is", cmap, SNONE) and pol:
+            return True                                   # not initialised yet
+        if t[0] == "cmp" and t[1] == "Is" and t[3] == SNONE and t[2] == ("sub", parsed, ("const", "int", 1)) and not pol:
+            return True                                   # an indexed accessor (name__N): validated on its own
+        return False
+    final = [e for e in it.events if e.kind == "raise" and e.term[0] == "call" and e.term[1] == ("name", "AttributeError")]
+    if not final:
+        raise AnalysisError("Table.__setattr__: rejection not found")
+    bad = []
+    for e in final:
+        r = _unlooked_classes(it, e, S, exempt)
+        if r is None:
+            raise AnalysisError("Table.__setattr__: path classes of a rejection too many to enumerate")
+        bad += r
+    ctx.ob("e.lookup-reached", f, "setattr", not bad, "column assignment consults the accessor map before rejecting", final[-1].node,
+           message="t.<accessor> = value can be rejected without looking the accessor up: when " + "; or when ".join(bad[:2]))
     # __setitem__ string specs: every column given by name is looked up in the (fresh) accessor map - on the symx event log
-    from ..sites2 import interp_of
-    from ..symx import flatten_conds, show
     f = prog.func("table.Table.__setitem__")
     it = interp_of(prog, f)
     S = ("param", f.params[0])
@@ -682,6 +758,10 @@ MUTANTS = [
                 (_N, "	# Starts with digit → prefix c\n	if sanitized[0].isdigit():\n		sanitized = \"c\" + sanitized\n",
                  "	# Starts with digit → prefix c\n	if sanitized[:1].isdigit():\n		sanitized = \"c\" + sanitized\n	sanitized = sanitized.strip('_')\n", 1)],
          rules=["a.sanitiser"]),
+    dict(id="reserved-properties-forgotten", module=_N, old="				if callable(attr) or isinstance(attr, property):", new="				if callable(attr):",
+         rules=["a.sanitiser"], desc="a column named like a property (shape, name, T) would shadow it"),
+    dict(id="reserved-only-vector", module=_N, old="		for cls in (Vector, Table):", new="		for cls in (Vector,):", rules=["a.sanitiser"]),
+    dict(id="reserved-not-lowered", module=_N, old="					reserved.add(name.lower())", new="					reserved.add(name)", rules=["a.sanitiser"]),
     dict(id="reserved-suffix-dropped", module=_N, old="	if sanitized in _get_reserved_names():\n		sanitized = sanitized + '_'\n", new="", rules=["a.sanitiser"]),
     dict(id="headers-sep-differs", module=_D, old="				sep = \"\" if san.endswith(\"_\") else \"_\"", new="				sep = \"_\"", rules=["d.kernels-agree"]),
     dict(id="headers-over-shown-only", module=_D, old="	for idx, col in enumerate(cols):\n		# Sanitized dot name",
